@@ -131,6 +131,32 @@ def run(ctx):
             rp = C.write_replay(prop, {"kind": "session over the pipe", "lines": script, "end": mode, "problem": problem})
             violations.append({"replay": rp})
             break
+    # deterministic scenarios: end of input / quit while a search is running
+    for script, end in ((["position startpos", "go infinite"], "eof"), (["position startpos", "go infinite"], "quit"),
+                        (["position startpos", "go depth 40"], "eof"), (["go infinite", "stop"], "eof"),
+                        (["go movetime 3000"], "eof")):
+        eng_p = uciproc.Engine()
+        problem = None
+        try:
+            for l in script:
+                eng_p.send(l)
+            time.sleep(0.3)
+            if end == "quit":
+                rc, dt = eng_p.finish(timeout=5)
+                if rc is None:
+                    problem = "did not exit within 5 s after quit during a search"
+            else:
+                eng_p.close_stdin()
+                try:
+                    rc = eng_p.p.wait(timeout=5)
+                except Exception:
+                    problem = "did not exit within 5 s after end of input during a search"
+        finally:
+            eng_p.kill()
+        sess_done += 1
+        if problem:
+            rp = C.write_replay(prop, {"kind": "session over the pipe", "lines": script, "end": end, "problem": problem})
+            violations.append({"replay": rp})
     cov["pipe_sessions"] = sess_done
     cov["evaluations"] = len(lines) + sess_done
     cov["distinct_nontrivial"] = len(lines) - 1
